@@ -8,14 +8,34 @@ import uuid
 
 class Obj(object):
     """Reference-side stand-in for an instance of a generated complex class."""
-    __slots__ = ('cls', 'f')
+    __slots__ = ('cls', 'f', 'alias')
 
     def __init__(self, cls, **f):
         self.cls = cls
+        self.alias = f.pop('_alias', None)   # Objs with the same alias become ONE native instance (aliasing)
         self.f = f
 
     def __repr__(self):
         return 'Obj(%s, %s)' % (self.cls, ', '.join('%s=%r' % kv for kv in sorted(self.f.items())))
+
+
+class Chunks(bytes):
+    """A ByteArray value given to Spyne as a sequence of byte chunks (its documented native form).  For the reference
+    side it *is* the byte string it denotes; spec.to_native hands Spyne the chunk list."""
+    def __new__(cls, chunks, as_tuple=False):
+        o = bytes.__new__(cls, b''.join(chunks))
+        o.chunks = tuple(bytes(c) for c in chunks)
+        o.as_tuple = as_tuple
+        return o
+
+    def __getnewargs__(self):
+        return (self.chunks, self.as_tuple)
+
+    def native(self):
+        return tuple(self.chunks) if self.as_tuple else list(self.chunks)
+
+    def __repr__(self):
+        return 'Chunks(%r)' % (self.chunks,)
 
 
 class FixedTz(_dt.tzinfo):
@@ -63,6 +83,8 @@ def enc(v):
         return {'$f': repr(v)}
     if isinstance(v, decimal.Decimal):
         return {'$dec': str(v)}
+    if isinstance(v, Chunks):
+        return {'$chunks': [c.hex() for c in v.chunks], 'tuple': v.as_tuple}
     if isinstance(v, (bytes, bytearray)):
         return {'$b': bytes(v).hex()}
     if isinstance(v, _dt.datetime):
@@ -78,7 +100,10 @@ def enc(v):
     if isinstance(v, uuid.UUID):
         return {'$u': str(v)}
     if isinstance(v, Obj):
-        return {'$o': v.cls, 'f': {k: enc(x) for k, x in v.f.items()}}
+        j = {'$o': v.cls, 'f': {k: enc(x) for k, x in v.f.items()}}
+        if v.alias is not None:
+            j['alias'] = v.alias
+        return j
     if isinstance(v, (list, tuple)):
         return [enc(x) for x in v]
     if isinstance(v, dict):
@@ -111,6 +136,8 @@ def dec(j):
         return float(j['$f'])
     if '$dec' in j:
         return decimal.Decimal(j['$dec'])
+    if '$chunks' in j:
+        return Chunks([bytes.fromhex(c) for c in j['$chunks']], j.get('tuple', False))
     if '$b' in j:
         return bytes.fromhex(j['$b'])
     if '$dt' in j:
@@ -126,7 +153,9 @@ def dec(j):
     if '$u' in j:
         return uuid.UUID(j['$u'])
     if '$o' in j:
-        return Obj(j['$o'], **{k: dec(x) for k, x in j['f'].items()})
+        o = Obj(j['$o'], **{k: dec(x) for k, x in j['f'].items()})
+        o.alias = j.get('alias')
+        return o
     if '$m' in j:
         return {dec(k): dec(x) for k, x in j['$m']}
     raise TypeError('cannot untag %r' % (j,))
